@@ -18,6 +18,7 @@ namespace smc { int g_hash_mode = 0; }   // per-run hashing knob of the set/map 
 namespace smc { struct IBase; std::vector<IBase*>* g_ipool = nullptr; const vh::Ctx* g_consistency_ctx = nullptr; bool g_exclusive_functors = false; bool g_with_pred = false; int g_functor_occupancy[64]; }   // node pool of the intrusive set subjects (subjects/intrusive_common.h)
 
 namespace vh {
+bool g_atomic_eager_pass = true;
 
 // ------------------------------------------------------------------ registry
 static std::vector<const Subject*>& reg() { static std::vector<const Subject*> v; return v; }
